@@ -24,6 +24,10 @@ type SpecEnv struct {
 	pkg    *types.Package
 	depth  int
 	inCall bool // evaluating a callee contract at a call site: no local lookup
+	// pol: +1 the formula is a hypothesis here (assumed, or a goal under negation),
+	// -1 it is a goal (to be proved, or an assumption under negation), 0 unknown/mixed.
+	pol  int
+	univ []Val // enclosing universally bound variables (for skolem functions)
 }
 
 func (e *SpecEnv) with(vars map[string]Val) *SpecEnv {
@@ -205,7 +209,13 @@ func (x *Exec) evalSpec(e Expr, env *SpecEnv) (Val, error) {
 		if isLiteral(e) {
 			return x.evalSpecHint(e, env, nil, "")
 		}
-		v, err := x.evalSpec(t.X, env)
+		uenv := env
+		if t.Op == "!" {
+			n := *env
+			n.pol = -env.pol
+			uenv = &n
+		}
+		v, err := x.evalSpec(t.X, uenv)
 		if err != nil {
 			return Val{}, err
 		}
@@ -231,7 +241,9 @@ func (x *Exec) evalSpec(e Expr, env *SpecEnv) (Val, error) {
 	case *EBinary:
 		return x.evalBinary(t, env)
 	case *ECond:
-		c, err := x.evalBool(t.C, env)
+		cenv := *env
+		cenv.pol = 0
+		c, err := x.evalBool(t.C, &cenv)
 		if err != nil {
 			return Val{}, err
 		}
@@ -604,7 +616,7 @@ func (x *Exec) indexVal(env *SpecEnv, xv Val, ie Expr) (Val, error) {
 		abs, _ := vc.ar.Bin("+", off, idx, kInt)
 		return Val{T: Select(Select(vc.heapGet(env.st, key, hs), app(SInt, "s-ref", xv.T)), abs), Typ: et}, nil
 	case xv.T.Sort == "Str":
-		return Val{T: app(vc.ar.Sort(IntKind{8, false}), "str.at", xv.T, idx), Typ: types.Typ[types.Uint8]}, nil
+		return Val{T: app(vc.ar.Sort(IntKind{8, false}), "gs.at", xv.T, idx), Typ: types.Typ[types.Uint8]}, nil
 	case strings.HasPrefix(xv.T.Sort, "(Array "):
 		var et types.Type
 		if xv.Typ != nil {
@@ -632,11 +644,22 @@ func (x *Exec) evalBinary(t *EBinary, env *SpecEnv) (Val, error) {
 	vc := x.vc
 	switch t.Op {
 	case "&&", "||", "==>", "<==>":
-		a, err := x.evalBool(t.X, env)
+		lenv, renv := env, env
+		switch t.Op {
+		case "==>":
+			n := *env
+			n.pol = -env.pol
+			lenv = &n
+		case "<==>":
+			n := *env
+			n.pol = 0
+			lenv, renv = &n, &n
+		}
+		a, err := x.evalBool(t.X, lenv)
 		if err != nil {
 			return Val{}, err
 		}
-		b, err := x.evalBool(t.Y, env)
+		b, err := x.evalBool(t.Y, renv)
 		if err != nil {
 			return Val{}, err
 		}
@@ -754,6 +777,12 @@ func (x *Exec) evalQuant(q *EQuant, env *SpecEnv) (Val, error) {
 			sortS = SInt
 		case "iface":
 			sortS = "Iface"
+		case "intarr":
+			sortS = arraySort(vc.ar.IdxSort(), SInt)
+		case "bytearr":
+			sortS = arraySort(vc.ar.IdxSort(), vc.ar.Sort(IntKind{8, false}))
+		case "bseq":
+			sortS = "BSeq"
 		case "bytes":
 			sortS = "Slice"
 			typ = types.NewSlice(types.Typ[types.Uint8])
@@ -774,11 +803,11 @@ func (x *Exec) evalQuant(q *EQuant, env *SpecEnv) (Val, error) {
 			typ = b
 			sortS = vc.sortOf(b)
 		}
-		name := "q!" + v.Name
-		if _, ok := env.vars[v.Name]; ok {
-			name = fmt.Sprintf("q!%s!%d", v.Name, env.depth)
-		}
-		vars[v.Name] = Val{T: raw(name, sortS), Typ: typ}
+		// globally unique SMT names: no capture when spec macros with their own quantifiers nest
+		vc.fresh++
+		name := fmt.Sprintf("q!%s!%d", v.Name, vc.fresh)
+		// bound variables shadow locals and parameters: "$local:" entries are looked up first
+		vars["$local:"+v.Name] = Val{T: raw(name, sortS), Typ: typ}
 		decl = append(decl, fmt.Sprintf("(%s %s)", name, sortS))
 		if typ != nil && vc.ar.Mode == ModeInt {
 			if k, ok := intKindOf(typ); ok && v.Type != "int" {
@@ -787,9 +816,78 @@ func (x *Exec) evalQuant(q *EQuant, env *SpecEnv) (Val, error) {
 		}
 	}
 	inner := env.with(vars)
+	if q.Forall {
+		for _, v := range q.Vars {
+			inner.univ = append(append([]Val{}, inner.univ...), vars["$local:"+v.Name])
+		}
+	}
+	// Existential as a hypothesis (or universal as a goal is left alone): name the witness by a
+	// skolem function of the enclosing universal variables, and remember it for this quantifier.
+	if !q.Forall && env.pol > 0 && len(q.Vars) == 1 && vc.dry == 0 {
+		v := q.Vars[0]
+		bv := vars["$local:"+v.Name]
+		vc.fresh++
+		sk := fmt.Sprintf("sk!%s!%d", v.Name, vc.fresh)
+		var argSorts, args []string
+		for _, u := range env.univ {
+			argSorts = append(argSorts, u.T.Sort)
+			args = append(args, u.T.S)
+		}
+		vc.decls = append(vc.decls, fmt.Sprintf("(declare-fun %s (%s) %s)", sk, strings.Join(argSorts, " "), bv.T.Sort))
+		t := sk
+		if len(args) > 0 {
+			t = "(" + sk + " " + strings.Join(args, " ") + ")"
+		}
+		vars2 := map[string]Val{"$local:" + v.Name: {T: raw(t, bv.T.Sort), Typ: bv.Typ}}
+		body, err := x.evalBool(q.Body, env.with(vars2))
+		if err != nil {
+			return Val{}, err
+		}
+		if len(ranges) > 0 {
+			sub := strings.ReplaceAll(And(ranges...).S, bv.T.S, t)
+			body = And(raw(sub, SBool), body)
+		}
+		skKey := v.Name + ":" + bv.T.Sort + ":" + strings.Join(argSorts, " ")
+		vc.lastSk[skKey] = append(vc.lastSk[skKey], skolem{name: sk, arity: len(args), sorts: strings.Join(argSorts, " ")})
+		return Val{T: body, Typ: types.Typ[types.Bool]}, nil
+	}
 	body, err := x.evalBool(q.Body, inner)
 	if err != nil {
 		return Val{}, err
+	}
+	// Existential as a goal: offer the witness recorded when the same existential was last assumed.
+	var candidate *Term
+	if !q.Forall && env.pol < 0 && len(q.Vars) == 1 {
+		v := q.Vars[0]
+		bv := vars["$local:"+v.Name]
+		var argSorts, args []string
+		for _, u := range env.univ {
+			argSorts = append(argSorts, u.T.Sort)
+			args = append(args, u.T.S)
+		}
+		skKey := v.Name + ":" + bv.T.Sort + ":" + strings.Join(argSorts, " ")
+		sks := vc.lastSk[skKey]
+		if len(sks) > 3 {
+			sks = sks[len(sks)-3:]
+		}
+		var cands []Term
+		for _, skm := range sks {
+			t := skm.name
+			if len(args) > 0 {
+				t = "(" + skm.name + " " + strings.Join(args, " ") + ")"
+			}
+			cb, err := x.evalBool(q.Body, env.with(map[string]Val{"$local:" + v.Name: {T: raw(t, bv.T.Sort), Typ: bv.Typ}}))
+			if err == nil {
+				if len(ranges) > 0 {
+					cb = And(raw(strings.ReplaceAll(And(ranges...).S, bv.T.S, t), SBool), cb)
+				}
+				cands = append(cands, cb)
+			}
+		}
+		if len(cands) > 0 {
+			c := Or(cands...)
+			candidate = &c
+		}
 	}
 	if len(ranges) > 0 {
 		if q.Forall {
@@ -822,6 +920,9 @@ func (x *Exec) evalQuant(q *EQuant, env *SpecEnv) (Val, error) {
 	}
 	if body.B != 0 {
 		return Val{T: body, Typ: types.Typ[types.Bool]}, nil
+	}
+	if candidate != nil {
+		return Val{T: Or(*candidate, raw(s, SBool)), Typ: types.Typ[types.Bool]}, nil
 	}
 	return Val{T: raw(s, SBool), Typ: types.Typ[types.Bool]}, nil
 }
@@ -860,7 +961,7 @@ func (x *Exec) evalCall(c *ECall, env *SpecEnv) (Val, error) {
 		case v.T.Sort == "Slice":
 			return Val{T: app(idxS, "s-"+c.Fun, v.T), Typ: types.Typ[types.Int]}, nil
 		case v.T.Sort == "Str":
-			return Val{T: app(idxS, "str.len", v.T), Typ: types.Typ[types.Int]}, nil
+			return Val{T: app(idxS, "gs.len", v.T), Typ: types.Typ[types.Int]}, nil
 		case v.Typ != nil:
 			if at, ok := v.Typ.Underlying().(*types.Array); ok {
 				return Val{T: vc.idx(at.Len()), Typ: types.Typ[types.Int]}, nil
@@ -956,6 +1057,31 @@ func (x *Exec) evalCall(c *ECall, env *SpecEnv) (Val, error) {
 			return Val{T: t}, err
 		}
 		return Val{T: v.T}, nil
+	case "store":
+		// store(A, i, v): functional array update
+		if err := argN(3); err != nil {
+			return Val{}, err
+		}
+		a, err := x.evalSpec(c.Args[0], env)
+		if err != nil {
+			return Val{}, err
+		}
+		if !strings.HasPrefix(a.T.Sort, "(Array ") {
+			return Val{}, fmt.Errorf("store() needs an array")
+		}
+		ks, vs := arraySorts(a.T.Sort)
+		i, err := x.evalSpecHint(c.Args[1], env, nil, ks)
+		if err != nil {
+			return Val{}, err
+		}
+		v, err := x.evalSpecHint(c.Args[2], env, nil, vs)
+		if err != nil {
+			return Val{}, err
+		}
+		if i.T.Sort != ks || v.T.Sort != vs {
+			return Val{}, fmt.Errorf("store(): sorts %s,%s do not match %s", i.T.Sort, v.T.Sort, a.T.Sort)
+		}
+		return Val{T: Store(a.T, i.T, v.T), Typ: a.Typ}, nil
 	case "owner":
 		// owner(p): the reference of the heap object an (interior) pointer points into
 		if err := argN(1); err != nil {
@@ -1025,7 +1151,7 @@ func (x *Exec) evalCall(c *ECall, env *SpecEnv) (Val, error) {
 		if a.T.Sort != as {
 			return Val{}, fmt.Errorf("bseq() needs a byte array, got %s", a.T.Sort)
 		}
-		vc.decl("fun:bseq", fmt.Sprintf("(declare-fun bseq (%s %s %s) BSeq)\n(declare-fun bseq.len (BSeq) %s)", as, idxS, idxS, idxS))
+		vc.declBseq()
 		return Val{T: app("BSeq", "bseq", a.T, o.T, n.T)}, nil
 	case "arr":
 		// arr(bs): the backing array of a slice as an SMT array (index = absolute position)
@@ -1276,21 +1402,32 @@ func (vc *VC) ghostInitial(name, sort string) Term {
 // byteSeq abstracts the contents of a byte slice as a value of sort BSeq.
 func (vc *VC) byteSeq(st *State, s Term) Term {
 	idx := vc.ar.IdxSort()
-	as := arraySort(idx, vc.ar.Sort(IntKind{8, false}))
-	vc.decl("fun:bseq", fmt.Sprintf("(declare-fun bseq (%s %s %s) BSeq)\n(declare-fun bseq.len (BSeq) %s)", as, idx, idx, idx))
+	vc.declBseq()
 	key, hs := vc.elemKey(types.Typ[types.Uint8])
 	arr := Select(vc.heapGet(st, key, hs), app(SInt, "s-ref", s))
 	r := app("BSeq", "bseq", arr, app(idx, "s-off", s), app(idx, "s-len", s))
 	return r
 }
 
-func (vc *VC) bytesEqual(st *State, a, b Term) Term {
+// declBseq declares the abstraction of byte strings: bseq(array, off, len) with its length,
+// and a canonical empty string (so that equality of abstractions is bytes.Equal).
+func (vc *VC) declBseq() {
 	idx := vc.ar.IdxSort()
-	la, lb := app(idx, "s-len", a), app(idx, "s-len", b)
-	// equal lengths and equal abstract sequences; both nil-length slices are equal
-	z := vc.idx(0)
-	sa, sb := vc.byteSeq(st, a), vc.byteSeq(st, b)
-	return And(Eq(la, lb), Or(Eq(la, z), Eq(sa, sb)))
+	as := arraySort(idx, vc.ar.Sort(IntKind{8, false}))
+	z := vc.idx(0).S
+	ge := "(>= n " + z + ")"
+	if vc.ar.Mode == ModeBV {
+		ge = "(bvsge n " + z + ")"
+	}
+	vc.decl("fun:bseq", fmt.Sprintf("(declare-fun bseq (%s %s %s) BSeq)\n(declare-fun bseq.len (BSeq) %s)\n(declare-const bseq.empty BSeq)\n"+
+		"(assert (forall ((a %s) (o %s) (n %s)) (! (=> %s (= (bseq.len (bseq a o n)) n)) :pattern ((bseq a o n)))))\n"+
+		"(assert (forall ((a %s) (o %s)) (! (= (bseq a o %s) bseq.empty) :pattern ((bseq a o %s)))))\n(assert (= (bseq.len bseq.empty) %s))",
+		as, idx, idx, idx, as, idx, idx, ge, as, idx, z, z, z))
+}
+
+// bytesEqual: bytes.Equal(a, b) as equality of the abstract byte strings (length included).
+func (vc *VC) bytesEqual(st *State, a, b Term) Term {
+	return Eq(vc.byteSeq(st, a), vc.byteSeq(st, b))
 }
 
 func (vc *VC) bigVal(st *State, ref Term) Term {
